@@ -162,6 +162,21 @@ def rfkicks_rows(exe, h5, rng):
     return fails
 
 
+def steps_equivalence(exe, h5, rng, nruns):
+    """the modulation increment must follow the time step actually used, however the step count is given"""
+    fails = []
+    for _ in range(nruns):
+        steps = rng.choice([64, 80, 100])
+        f, a = P.steps_equivalence(exe, h5, steps, ["-s", "16", "-T", "0.5", "-n", "8", "-G", "0",
+                                                    "--RFPhaseModAmplitude", repr(rng.choice([0.3, 1.0])),
+                                                    "--RFPhaseModFrequency", repr(rng.choice([20000.0, 45000.0])),
+                                                    "--LinearRF", str(rng.choice([0, 1]))],
+                                    ["/RFKicks/data", "/Info/AxisValues_t"], 2e-4, rfk_tol=3e-6)
+        if f:
+            fails.append((f, a, steps))
+    return fails
+
+
 def explore(chk, harness, count, tag):
     rng = lib.Rng(chk.seed, "C19/" + tag)
     recs = gen(rng, count)
@@ -181,6 +196,12 @@ def run(chk):
     count = 60 if quick else 2500
     recs, optexts, mism, drift, san, fails, rng = explore(chk, harness, count, "main")
     binf = rfkicks_rows(exe, h5, rng)
+    sef = steps_equivalence(exe, h5, rng, 1 if quick else 6)
+    for f, a, steps in sef[:1]:
+        chk.violation("C19 violated: recorded modulation depends on how the step count is given: " + f,
+                      "# C19: %s\ninovesa %s\n# versus the same command with `-N %d` instead of --StepsPerRevolution\n" % (f, " ".join(a), steps),
+                      tag="steps")
+    binf = binf + [f for f, a, steps in sef[1:]]
     chk.cov["evaluations"] = len(recs) + 2
     chk.cov["distinct_nontrivial"] = len({r["optext"] for r in recs})
     chk.cov["rule"] = ("DynamicRFKickMap histories: random interleavings of apply/flush over 3-12 step queues, linear and "
@@ -211,7 +232,7 @@ def run(chk):
         broken.append("proof obligation: " + str(det.get("broken"))[:1500])
     if mism:
         broken.append("correspondence (model vs implementation): case %s: %s" % mism[0])
-    if broken and not fails and not san and not binf:
+    if broken and not fails and not san and not binf and not sef:
         recs2, opt2, mism2, drift2, san2, fails2, _ = explore(chk, harness, 600, "search")
         chk.cov["search"] = {"cases": len(recs2), "oracle_failures": len(fails2)}
         if fails2:
